@@ -846,8 +846,9 @@ class CffiLayout(object):
         self.mod = mod
         o = mod.struct_layout(('named', 'struct._ctypedescr'))
         names = ['head', 'ct_itemdescr', 'ct_stuff', 'ct_extra', 'ct_weakreflist', 'ct_unique_key',
-                 'ct_size', 'ct_length', 'ct_flags', 'ct_name_position', 'ct_under_construction',
-                 'ct_lazy_field_list', 'ct_unrealized_struct_or_union', 'ct_flags_mut', 'ct_name']
+                 'ct_size', 'ct_length', 'ct_flags', 'ct_flags_mut', 'ct_under_construction',
+                 'ct_lazy_field_list', 'ct_unrealized_struct_or_union', 'ct_name_position', 'ct_name']
+        assert len(o[0]) == len(names), 'CTypeDescrObject has changed: %r' % (o[0],)
         self.ct = dict(zip(names, o[0]))
         self.ct_sizeof = o[1]
         o = mod.struct_layout(('named', 'struct.cfieldobject_s'))
